@@ -219,7 +219,30 @@ class Bicomplex(object):
         z02 = 0.5 * (z1 + 1j * z2) ** other
         return Bicomplex(z01 + z02, (z01 - z02) * 1j)
 
+    def _pow_integer(self, n):
+        """Integer power by repeated multiplication.
+
+        exp(n*log(z)) leaves a residue of size eps in the other components
+        when the real part is negative (sin(n*pi) != 0 in floating point),
+        which swamps the derivative information carried at step size ~eps.
+        """
+        base = self
+        if n < 0:
+            z1, z2 = self.z1, self.z2
+            base = Bicomplex(z1, -z2) * (1.0 / (z1 * z1 + z2 * z2))
+            n = -n
+        out = Bicomplex(np.ones_like(self.z1), np.zeros_like(self.z2))
+        while n:
+            if n & 1:
+                out = out * base
+            n >>= 1
+            if n:
+                base = base * base
+        return out
+
     def __pow__(self, other):
+        if isinstance(other, (int, np.integer)) or (isinstance(other, float) and other.is_integer()):
+            return self._pow_integer(int(other))
         # TODO: Check correctness
         out = (self.log() * other).exp()
         non_invertible = np.abs(self.mod_c()) < 1e-15
